@@ -169,7 +169,10 @@ class C08(Prop):
                 elif step == "add_random":
                     np.random.seed(case["rng"] + 11)
                     other = Mps.random(model, qarg, max(case["m0"], 2), percent=1.0)
-                    mps = other.add(mps) if case["prep_k"] % 2 else mps.add(other)
+                    new = other.add(mps) if case["prep_k"] % 2 else mps.add(other)
+                    # in a one-dimensional sector the two normalised states can cancel exactly: a zero MPS is not a guess
+                    if np.linalg.norm(new.todense()) > 1e-6:
+                        mps = new
                 elif step == "previous_result":
                     tmp = mps.copy()
                     tmp.optimize_config.procedure = [[4, 0.2], [4, 0]]
